@@ -19,14 +19,17 @@ from vf.api import Enumerated, Generated, Violation
 PROPERTY = "C28"
 LEVEL = "exploration"
 RULE = (
-    "seq: programs (<=30 ops) of listen (class or instance target; insert, propagate, once, named drawn), remove, contains, create subclass (1-2 bases, "
+    "seq: programs (<=30 ops) of listen (class or instance target; insert, propagate, once, named drawn), remove, re-listen of the same function after its "
+    "removal (options drawn anew), derive a new target that takes over the propagating instance-level listeners of an existing one (dispatch._update, what "
+    "Column.copy / to_metadata / mapper inheritance do), contains, create subclass (1-2 bases, "
     "depth<=3), create instance, dispatch through an instance, over a fresh event.Events family; engine: the same through the real Engine/Connection "
     "event targets incl. retval=True before_cursor_execute. once: 2-3 threads x exec_once / exec_once_unless_exception / _exec_w_sync_on_first_run with "
     "listeners raising on their first k calls, under generated schedules. Non-trivial (seq): a remove, a once listener or a subclass created after a "
     "registration, followed by a dispatch it affects; (once): >=1 pre-emption taken while another thread is inside the collection; distinct = canonical JSON"
 )
 ASSUMPTIONS = [
-    "each registration uses a fresh function object (registering one function object twice is outside the stated 'each once')",
+    "each live registration uses its own function object (registering one function object twice at the same time is outside the stated 'each once'); a removed function may be registered again",
+    "derive uses the internal dispatch._update(other) entry point, which is exactly what the library's own copying targets call",
     "order is asserted as the property states it: among listeners registered on the same target, appended ones in registration order and inserted ones "
     "before everything registered earlier on that target; class-level before instance-level; the relative order of listeners inherited from different "
     "parent classes is not asserted",
@@ -128,10 +131,47 @@ def check_seq(case, ctx):
                 if o["named"]:
                     kw["named"] = True
                 event.listen(target_obj(t), "ev", fn, **kw)
-                regs.append(dict(id=rid, target=t, insert=o["insert"], once=o["once"], named=o["named"], fn=fn, alive=True, fired=0, time=step))
+                regs.append(dict(id=rid, target=t, insert=o["insert"], once=o["once"], named=o["named"], fn=fn, alive=True, fired=0, time=step,
+                                 propagate=bool(o["propagate"]), also=set()))
                 cls_labels.update(k for k, v in o.items() if v)
                 if o["once"]:
                     affecting = True
+            elif name == "relisten":
+                # the SAME function object registered again after it was removed, with newly drawn options
+                dead = [r for r in regs if not r["alive"] and not r["once"]]
+                if not dead:
+                    continue
+                r = dead[op[1] % len(dead)]
+                o = op[2]
+                kw = {}
+                if o["insert"]:
+                    kw["insert"] = True
+                if o["propagate"]:
+                    kw["propagate"] = True
+                if r["named"]:
+                    kw["named"] = True
+                event.listen(target_obj(r["target"]), "ev", r["fn"], **kw)
+                r.update(alive=True, insert=o["insert"], propagate=bool(o["propagate"]), time=step, also=set(), fired=0)
+                affecting = True
+                cls_labels.add("relisten-same-function")
+                if o["propagate"]:
+                    cls_labels.add("propagate")
+            elif name == "derive":
+                # a new target that takes over the *propagating* instance-level listeners of an existing one, the way Column.copy() /
+                # Table.to_metadata() / mapper inheritance do (dispatch._update, only_propagate=True)
+                if not instances:
+                    continue
+                j = op[1] % len(instances)
+                src, ci = instances[j]
+                new_obj = classes[ci]()
+                new_obj.dispatch._update(src.dispatch)
+                instances.append((new_obj, ci))
+                nj = len(instances) - 1
+                for r in regs:
+                    if r["alive"] and r["propagate"] and ((r["target"] == ("inst", j)) or j in r["also"]):
+                        r["also"].add(nj)
+                        affecting = True
+                cls_labels.add("derive")
             elif name == "remove":
                 live = [r for r in regs if r["alive"] and not r["once"]]  # a once-wrapped function cannot be removed by its original reference
                 if not live:
@@ -168,7 +208,7 @@ def check_seq(case, ctx):
                         continue
                     if r["once"] and r["fired"]:
                         continue
-                    if (r["target"][0] == "cls" and r["target"][1] in anc) or (r["target"][0] == "inst" and r["target"][1] == ii):
+                    if (r["target"][0] == "cls" and r["target"][1] in anc) or (r["target"][0] == "inst" and (r["target"][1] == ii or ii in r["also"])):
                         expected.append(r)
                 got_ids = [rid for rid, _ in calls]
                 exp_ids = sorted(r["id"] for r in expected)
@@ -195,7 +235,7 @@ def check_seq(case, ctx):
                 pos = {rid: i for i, rid in enumerate(got_ids)}
                 for a in expected:
                     for b in expected:
-                        if a["id"] >= b["id"]:
+                        if (a["time"], a["id"]) >= (b["time"], b["id"]):
                             continue
                         # a registered before b
                         if a["target"] == b["target"]:
@@ -225,6 +265,8 @@ _seq_op = st.one_of(
     st.tuples(st.just("listen"), st.sampled_from(["cls", "cls", "inst"]), st.integers(0, 7), _opts).map(list),
     st.tuples(st.just("listen"), st.sampled_from(["cls", "cls", "inst"]), st.integers(0, 7), _opts).map(list),
     st.tuples(st.just("remove"), st.integers(0, 9)).map(list),
+    st.tuples(st.just("relisten"), st.integers(0, 9), _opts).map(list),
+    st.tuples(st.just("derive"), st.integers(0, 7)).map(list),
     st.tuples(st.just("contains"), st.integers(0, 9)).map(list),
     st.tuples(st.just("subclass"), st.lists(st.integers(0, 7), min_size=1, max_size=2)).map(list),
     st.tuples(st.just("instance"), st.integers(0, 7)).map(list),
@@ -244,6 +286,28 @@ def _seq_cases(draw):
     # already-established parents), then the mixed program
     prefix = draw(st.lists(st.one_of(_sub1, _sub1, _sub2, _early_listen), min_size=0, max_size=6))
     body = draw(st.lists(st.one_of(_seq_op, _sub2), min_size=3, max_size=26))
+    if draw(st.integers(0, 3)) == 0:
+        # motif: listeners on one instance come and go (same function objects re-registered with other options), then a derived target
+        # takes over the propagating ones and is dispatched
+        plain = st.fixed_dictionaries({"insert": st.booleans(), "propagate": st.booleans(), "once": st.just(False), "named": st.booleans()})
+        k = draw(st.integers(0, 3))
+        motif = [["instance", draw(st.integers(0, 7))]]
+        motif += [["listen", "inst", -1, draw(plain)] for _ in range(draw(st.integers(1, 3)))]
+        motif += [draw(st.sampled_from([["remove", draw(st.integers(0, 9))], ["remove", -1], ["relisten", draw(st.integers(0, 9)), draw(plain)], ["relisten", -1, draw(plain)]]))
+                  for _ in range(draw(st.integers(1, 5)))]
+        motif += [["derive", -1], ["dispatch", "inst", -1]]
+        at = min(k, len(body))
+        body = body[:at] + motif + body[at:]
+    if draw(st.integers(0, 3)) == 0:
+        # motif: two sibling classes, each with its own class-level listeners, then a subclass of both created afterwards
+        o = st.fixed_dictionaries({"insert": st.booleans(), "propagate": st.booleans(), "once": st.just(False), "named": st.booleans()})
+        base = draw(st.integers(0, 7))
+        motif = [["subclass", [base]], ["subclass", [base]]]
+        for _ in range(draw(st.integers(1, 4))):
+            motif.append(["listen", "cls", draw(st.sampled_from([-1, -2, -1, -2, base])), draw(o)])
+        motif += [["subclass", [-1, -2]], ["dispatch", "cls", -1]]
+        at = draw(st.integers(0, len(body)))
+        body = body[:at] + motif + body[at:]
     return {"ops": prefix + body}
 
 
